@@ -213,6 +213,10 @@ impl C11 {
         extra_ext: bool,
         history: &mut Vec<String>,
     ) -> bool {
+        if off % 8 != 0 || off / 8 > 0x1fff {
+            rep.selfcheck_fail(format!("harness asked for a fragment at offset {} that the 13 bit offset field cannot express", off));
+            return false;
+        }
         let payload: Vec<u8> = (off..off + len).map(|o| original(o)).collect();
         let pkt = encode(id, off, more, &payload, extra_ext);
         w.ts += 1;
@@ -484,17 +488,28 @@ impl C11 {
         let mut queue: Vec<(usize, usize, usize, bool)> = Vec::new(); // (stream, off, len, more)
         let mut lens = Vec::new();
         for (si, _) in ids.iter().enumerate() {
-            let total = match rng.below(10) {
-                0 => rng.range(9, 40) as usize,
-                1..=6 => rng.range(9, 400) as usize,
-                _ => rng.range(9, max_len) as usize,
+            let total = if !self.small && rng.chance(1, 40) {
+                // the upper half of the 13 bit offset range (fragments starting at >= 32768) up to the maximum
+                rep.count("datagrams.above_32k");
+                match rng.below(4) {
+                    0 => 65535,
+                    1 => 65528,
+                    _ => rng.range(33_000, 65_535) as usize,
+                }
+            } else {
+                match rng.below(10) {
+                    0 => rng.range(9, 40) as usize,
+                    1..=6 => rng.range(9, 400) as usize,
+                    _ => rng.range(9, max_len) as usize,
+                }
             };
             lens.push(total);
             // 8-aligned cut points
             let mut cuts = vec![0usize];
             let mut p = 0;
             loop {
-                let step = 8 * rng.range(1, (total / 8).max(1).min(40) as u64) as usize;
+                let max_units = if total > 3000 { total / 8 / 2 } else { (total / 8).max(1).min(40) };
+                let step = 8 * rng.range(1, max_units as u64) as usize;
                 p += step;
                 if p >= total {
                     break;
@@ -588,13 +603,14 @@ impl C11 {
                     }
                     2 => {
                         // a final fragment that ends somewhere else than the datagram
-                        let e = 8 * rng.range(2, (total / 8 + 6) as u64) as usize;
+                        // (the offset field has 13 bits: 65528 is the last expressible start)
+                        let e = (8 * rng.range(2, (total / 8 + 6) as u64) as usize).min(65528 + 8);
                         let a = e.saturating_sub(8);
                         self.deliver(rep, &mut w, &id, &orig, a, e - a, false, false, &mut history)
                     }
                     _ => {
                         // data behind the end of the datagram
-                        let a = (total + 7) / 8 * 8 + 8 * rng.below(4) as usize;
+                        let a = ((total + 7) / 8 * 8 + 8 * rng.below(4) as usize).min(65528);
                         self.deliver(rep, &mut w, &id, &orig, a, 8, true, false, &mut history)
                     }
                 };
@@ -778,9 +794,9 @@ impl C11 {
 impl Monitor for C11 {
     fn engines(&self, tier: Tier) -> Vec<(&'static str, u64)> {
         vec![
-            ("plain", tier.pick(120_000, 1_500_000)),
-            ("conflict", tier.pick(120_000, 1_500_000)),
-            ("buf", tier.pick(200_000, 2_000_000)),
+            ("plain", tier.pick(120_000, 7_500_000)),
+            ("conflict", tier.pick(120_000, 7_500_000)),
+            ("buf", tier.pick(200_000, 10_000_000)),
         ]
     }
 
